@@ -347,8 +347,22 @@ class Tracer(object):
             return
         st = sa.inspect(target)
         ck = set(st.committed_state.keys())
+        vals = self.vals_of(target, cn)
+        if st.pending:
+            # SQLAlchemy's "row switch": an object deleted and another one with the same key added in ONE flush become
+            # an UPDATE of the old row; the columns the new (still pending) object never set keep the old row's
+            # values although the object shows None for them: the event reports what the row holds
+            m = st.mapper
+            missing = [k for k in self.info.attrs[cn] if k not in st.dict]
+            if missing:
+                row = connection.execute(
+                    sa.select(*[m.get_property(k).columns[0] for k in missing]).select_from(m.selectable).where(
+                        sa.and_(*[c == v for c, v in zip(m.primary_key, m.primary_key_from_instance(target))]))).first()
+                if row is not None:
+                    for k, v in zip(missing, row):
+                        vals[self.info.attrs[cn].index(k)] = dec_val(v)
         self.emit('ev upd %d %s %s %s %s %s %s' % (
-            self.info.cid[cn], fmt_list(self.pk_of(target, cn)), fmt_vals(self.vals_of(target, cn)),
+            self.info.cid[cn], fmt_list(self.pk_of(target, cn)), fmt_vals(vals),
             fmt_bools(self.col_flags(target, cn)), fmt_bools(self.rel_flags(target, cn)),
             fmt_bools([k in ck for k in self.info.attrs[cn]]),
             fmt_bools([r[0] in ck for r in self.info.rels[cn]])))
